@@ -324,3 +324,6 @@ def run(ctx):
     ctx.borrow(c14.run, {'C14.R3': 'C02.R11', 'C14.R4': 'C02.R12'},
                'with an enhanced adapter the echo of every sent symbol and the slave response pass the frame decoder; a '
                'symbol it drops makes a valid exchange fail')
+    import rules.C11 as c11
+    ctx.borrow(c11.r1, {'C11.R1': 'C02.R14'},
+               'the CRC byte ebusd transmits and the check of the slave response CRC are computed with this table')
